@@ -205,8 +205,9 @@ package client
 //@   loop hostname: invariant copy-kept: forall i int {tunnels[i]} :: (0 <= i && i < n0) ==> tunnels[i] == t0[i]
 //@   loop hostname: invariant reusable-names: forall a int {available[a]} {av0[a]} :: (0 <= a && a < len(available)) ==> (available[a] == av0[a] && 0 <= asrc[a] && asrc[a] <= rangeindex#2 && available[a] == registered[asrc[a]] && reusable(inused, available[a]))
 //@   loop hostname: invariant in-registration-order: forall a, b int {asrc[a], asrc[b]} :: (0 <= a && a < b && b < len(available)) ==> asrc[a] < asrc[b]
-//@   loop hostname: invariant all-reusable-names-collected: forall j int {apos[j]} :: (0 <= j && j <= rangeindex#2 && reusable(inused, registered[j])) ==> (0 <= apos[j] && apos[j] < len(available) && available[apos[j]] == registered[j])
+//@   loop hostname: invariant all-reusable-names-collected: forall j int {apos[j]} {reg0[j]} :: (0 <= j && j <= rangeindex#2 && reusable(inused, registered[j])) ==> (0 <= apos[j] && apos[j] < len(available) && available[apos[j]] == registered[j])
 //@   loop i: invariant idx: -1 <= rangeindex#3 && rangeindex#3 < n0 && len(tunnels) == n0 && fresh(tunnels) && 0 <= len(available) && len(available) <= nav && !requested
+//@   loop i: invariant every-reusable-registered-name-is-in-the-pool: forall j int {apos[j]} {reg0[j]} :: (0 <= j && j < len(registered) && reusable(inused, reg0[j])) ==> (0 <= apos[j] && apos[j] < nav && av0[apos[j]] == reg0[j])
 //@   loop i: invariant remaining-names-are-a-suffix: forall a int {available[a]} :: (0 <= a && a < len(available)) ==> available[a] == av0[nav - len(available) + a]
 //@   loop i: invariant reusable-pool: (forall a int {av0[a]} :: (0 <= a && a < nav) ==> (reusable(inused, av0[a]) && av0[a] != "" && !fresh[av0[a]])) && (forall a, b int {av0[a], av0[b]} :: (0 <= a && a < b && b < nav) ==> av0[a] != av0[b])
 //@   loop i: invariant generated-names-are-new: forall h string {fresh[h]} :: fresh[h] ==> (h != "" && !has(inused, h))
